@@ -25,8 +25,9 @@ the source texts the reader accepts, assembling the parts
   evaluated by the driver on what the REAL parser returns):
   `fileStrsValid` (F6b; include paths, struct members, stages, pipelines, the
   call), `fileNoNegZero` (F26), `fileMBValid` (F25) / `fileMB32Valid` (F29),
-  `fileModsDistinct` (F40), `fileCallsDistinct` (F34); `fileHyps` /
-  `fileHyps32`: their conjunction.
+  `fileModsDistinct` (F40), `fileCallsDistinct` (F34); `fileHyps` =
+  `fileHyps32`: the conjunction with `fileMB32Valid` (F29's range is the range
+  of `wfFile`; F25's is subsumed).
 
 Core Lean only.
 -/
@@ -161,7 +162,8 @@ def callableMBValid : Callable → Bool
   | .stage s => stageMBValid s
   | .pipeline _ => true
 
-/-- F25: `mem_gb` / `vmem_gb` of every stage below 2^53 GB -/
+/-- F25: `mem_gb` / `vmem_gb` of every stage below 2^53 GB (not a hypothesis of any theorem any
+more: `fileMB32Valid` implies it; kept as the description of F25's range) -/
 def fileMBValid (f : File) : Bool := f.callables.all callableMBValid
 
 def callableMB32Valid : Callable → Bool
@@ -185,12 +187,17 @@ def callableCallsDistinct : Callable → Bool
 /-- F34: no two calls with the same id in one pipeline -/
 def fileCallsDistinct (f : File) : Bool := f.callables.all callableCallsDistinct
 
-/-- the exception hypotheses of the text-side theorems about the reader with the EXACT reading of
-`mem_gb` / `vmem_gb`: F6b, F26, F25, F40, F34 -/
+/-- the exception hypotheses of the text-side theorems (about the reader with the EXACT reading of
+`mem_gb` / `vmem_gb` and about the reader with the REAL float32 reading alike): F6b, F26, F29, F40,
+F34.  The resource conjunct is `fileMB32Valid` (every `mem_gb` / `vmem_gb` below 256 GB in magnitude,
+`wfMB`): the range where the exact reading of the model and the float32 reading of the real parser
+agree on what `formatGB` prints, and the range of `wfFile`; F25 (`fileMBValid`, below 2^53 GB) is
+subsumed. -/
 def fileHyps (f : File) : Bool :=
-  fileStrsValid f && fileNoNegZero f && fileMBValid f && fileModsDistinct f && fileCallsDistinct f
+  fileStrsValid f && fileNoNegZero f && fileMB32Valid f && fileModsDistinct f && fileCallsDistinct f
 
-/-- … about the reader with the REAL (float32) reading: F6b, F26, F29 (which implies F25), F40, F34 -/
+/-- the same conjunction under the name the float32-reader theorems use (`fileHyps32 f = fileHyps f`
+by `rfl`: `Proofs.FormatFileRangeText.fileHyps32_eq`) -/
 def fileHyps32 (f : File) : Bool :=
   fileStrsValid f && fileNoNegZero f && fileMB32Valid f && fileModsDistinct f && fileCallsDistinct f
 
